@@ -58,7 +58,7 @@ def make_history(case):
 
 def judge(case, reports, add, stats):
     runcheck.monitor_violations(
-        reports, add, skip=runcheck.known_elsewhere(["C01", "C03", "C05"]))
+        reports, add, skip=runcheck.known_elsewhere(["C03", "C05"]))
     classes = list(case.get("labels", []))
     classes.append("sampler:ins" if case.get("ins") else "sampler:standard")
     n_cmp = 0
